@@ -14,7 +14,7 @@ import tempfile
 
 from sim import factory
 from sim.choices import payload
-from sim.kernel import (ClockSeam, LivenessViolation, NullOut, Pipe, SimClock, SimDeadlock, SimRaw, SimSocket,
+from sim.kernel import (ClockSeam, library_exception, LivenessViolation, NullOut, Pipe, SimClock, SimDeadlock, SimRaw, SimSocket,
                         StepBudgetExceeded, World)
 from sim.runner import Outcome
 
@@ -319,12 +319,13 @@ def run(ch, render=False):
         tk.__enter__()
         knob_active = tk.active
         kwargs = dict(buffer_read_size_bytes=rs, show_progress=progress, skip_header_bytes=k)
-        if consumer == "ccsds_generator":
-            gen = pk.ccsds_generator(source, **kwargs)
-        else:
-            gen = _defn.packet_generator(source, ccsds_headers_only=True, **kwargs)
         w.ev("consumer", "start", src, consumer)
         try:
+            # creation is inside the try as well: a library whose set-up runs eagerly may raise here already
+            if consumer == "ccsds_generator":
+                gen = pk.ccsds_generator(source, **kwargs)
+            else:
+                gen = _defn.packet_generator(source, ccsds_headers_only=True, **kwargs)
             for i in range(len(pkts)):
                 item = next(gen)
                 got.append(item)
@@ -341,11 +342,13 @@ def run(ch, render=False):
             err = ("early_stop", "generator stopped before all packets were yielded")
         except (LivenessViolation, SimDeadlock, StepBudgetExceeded) as e:
             err = (type(e).__name__, str(e))
-        except Exception as e:  # any exception out of next() is a violation
+        except Exception as e:  # any exception out of the library is a violation (unless harness code raised it)
+            library_exception(e)
             err = ("exception", f"{type(e).__name__}: {e}")
         finally:
             try:
-                gen.close()
+                if gen is not None:
+                    gen.close()
             except Exception:
                 pass
     finally:
